@@ -146,7 +146,7 @@ func init() {
 					success = r.Exit == 0
 				}
 			}
-			if len(out) == 0 && !success {
+			if !success { // C08 speaks of what is output on success
 				return []Rec{{"kind": "nofile"}}
 			}
 			// (a run that reports success and leaves nothing is judged like any other output: zero bytes are not a file)
